@@ -110,6 +110,11 @@ func c08Excluded(c C08Case) bool {
 }
 
 func execC08(c C08Case) *Failure {
+	if strings.HasPrefix(c.Fault, "http") || c.Fault == "noendpoint" || c.Fault == "stallposts" {
+		// these faults have no position inside an answer (the enumeration lists them once, at 100): without this a cut of -1
+		// ("before the request reaches the server") would silently turn them into a refused connection
+		c.CutPct = 100
+	}
 	if c08Excluded(c) {
 		CountExcluded("C08/post-sse-body-not-closed")
 		c.Client = "streamable-json"
